@@ -4,7 +4,8 @@
    turns, i.e. are the same phase.  cos/sin/abs/angle are not modelled: see C14_gain_reproduces_valid_cartesian for what
    that means for the Cartesian value.  cal_product_types / default_cal_products are regenerated from the source. *)
 From Coq Require Import ZArith QArith Qround Qabs List Bool String Sorting.Sorted.
-From KV Require Import Base.Sx Base.Str Gen.Generated Model.Interp Model.CalInterp Proofs.InterpP Proofs.CalInterpP.
+From KV Require Import Base.Sx Base.Str Gen.Generated Model.Interp Model.CalInterp Model.CalSelect Proofs.InterpP
+  Proofs.CalInterpP Proofs.CalSelectP.
 Import ListNotations.
 Open Scope Q_scope.
 
@@ -196,3 +197,87 @@ Theorem C14_normalise_compositional :
      skip = (is_group r || existsb (fun p => negb (has_dot p)) (selection_to_list r streams))%bool).
 Proof. exact (conj expand_app normalise_skip_flag). Qed.
 Print Assumptions C14_normalise_compositional.
+
+(* WHICH PRODUCTS GET APPLIED (Model/CalSelect.v: calc_correction's product loop, the existence of the correction
+   sensors, stream discovery).  `avail p inp` = the correction sensor of product p for data input inp exists;
+   product_ok = it exists for EVERY data input.  None = KeyError. *)
+(* "skipping ... missing ones": with skip_missing_products the products applied are exactly the requested products
+   that are in the data set, each once, in request order — for every request list and every availability. *)
+Theorem C14_select_skips_missing : forall avail inputs ps,
+  select avail inputs true ps = Some (dedup_first (filter (product_ok avail inputs) ps)).
+Proof. exact select_skips_missing. Qed.
+Print Assumptions C14_select_skips_missing.
+
+(* the same as membership: every present requested product is applied wherever the missing ones stand, nothing else,
+   nothing twice *)
+Theorem C14_select_skip_complete_sound : forall avail inputs ps,
+  exists out, select avail inputs true ps = Some out /\
+    (forall p, In p out <-> In p ps /\ product_ok avail inputs p = true) /\ NoDup out.
+Proof. exact select_skip_complete_sound. Qed.
+Print Assumptions C14_select_skip_complete_sound.
+
+(* a missing product does not affect the products before or after it; applied products of a prefix are a prefix *)
+Theorem C14_select_missing_irrelevant :
+  (forall avail inputs a m b, product_ok avail inputs m = false ->
+     select avail inputs true (a ++ m :: b) = select avail inputs true (a ++ b)) /\
+  (forall avail inputs a b out, select avail inputs true (a ++ b) = Some out ->
+     exists rest, select avail inputs true a = Some (dedup_first (filter (product_ok avail inputs) a)) /\
+                  out = (dedup_first (filter (product_ok avail inputs) a) ++ rest)%list).
+Proof. exact (conj select_missing_irrelevant select_prefix). Qed.
+Print Assumptions C14_select_missing_irrelevant.
+
+(* "... or rejecting missing ones": without the flag it is all requested products or KeyError *)
+Theorem C14_select_rejects_missing : forall avail inputs ps,
+  select avail inputs false ps =
+  if forallb (product_ok avail inputs) ps then Some (dedup_first ps) else None.
+Proof. exact select_rejects_missing. Qed.
+Print Assumptions C14_select_rejects_missing.
+
+(* a product is applied as a whole or not at all: one data input without a solution makes it missing *)
+Theorem C14_product_needs_every_input : forall avail inputs p inp,
+  In inp inputs -> avail p inp = false -> product_ok avail inputs p = false.
+Proof. exact product_needs_every_input. Qed.
+Print Assumptions C14_product_needs_every_input.
+
+(* the correction sensor of <stream>.<type> for an input exists iff the stream is registered, all its substreams
+   carry that product and the input is one of the stream's antenna x polarisation inputs *)
+Theorem C14_sensor_available : forall streams s t inp, In t cal_product_types ->
+  sensor_available streams (join_dot s t) inp =
+  match find_stream s streams with
+  | Some c => has_type c t && mem_string inp (cs_inputs c)
+  | None => false
+  end.
+Proof. exact sensor_available_spec. Qed.
+Print Assumptions C14_sensor_available.
+
+(* request -> applied products, end to end (None of normalise = ValueError): the loop of the code equals the
+   documented rule, and what that gives for 'all', 'default' and fully qualified requests *)
+Theorem C14_applycal_products : forall r streams inputs,
+  applycal_products r streams inputs = spec_applycal r streams inputs.
+Proof. exact applycal_is_spec. Qed.
+Print Assumptions C14_applycal_products.
+
+Theorem C14_applycal_all_default_dotted :
+  (forall streams inputs, (forall s, In s (map cs_name streams) -> has_dot s = false) ->
+     applycal_products (RStr "all") streams inputs =
+     Applied (dedup_first (filter (product_ok (sensor_available streams) inputs)
+                (flat_map (fun s => map (join_dot s) cal_product_types) (map cs_name streams))))) /\
+  (forall streams inputs, applycal_products (RStr "default") streams inputs =
+     Applied (dedup_first (filter (product_ok (sensor_available streams) inputs) default_cal_products))) /\
+  (forall streams inputs l, forallb has_dot l = true ->
+     applycal_products (RList l) streams inputs =
+     if forallb (product_ok (sensor_available streams) inputs) l then Applied (dedup_first l) else KeyErr).
+Proof. exact (conj applycal_all (conj applycal_default applycal_dotted)). Qed.
+Print Assumptions C14_applycal_all_default_dotted.
+
+(* STREAM DISCOVERY: L1 = the first archived sdp.cal stream ('cal' if none); L2 = one <stream>_<target>_selfcal
+   substream per target of the first sdp.continuum_image stream that has targets *)
+Theorem C14_discover_streams :
+  (forall pre a post, (forall b, In b pre -> as_type b <> "sdp.cal") -> as_type a = "sdp.cal" -> as_name a <> "" ->
+     fst (discover (pre ++ a :: post)) = as_name a) /\
+  (forall l, (forall b, In b l -> as_type b <> "sdp.cal") -> fst (discover l) = "cal") /\
+  (forall pre a post, (forall b, In b pre -> as_type b <> "sdp.continuum_image" \/ as_targets b = []) ->
+     as_type a = "sdp.continuum_image" -> as_targets a <> [] ->
+     snd (discover (pre ++ a :: post)) = map (selfcal_name (as_name a)) (as_targets a)).
+Proof. exact (conj discover_l1_first (conj discover_l1_default discover_l2_first)). Qed.
+Print Assumptions C14_discover_streams.
